@@ -265,3 +265,14 @@ def subnormal_query(case, tag, event):
     return False
 
 KNOWN_CLASSES["subnormal_query"] = subnormal_query
+
+def flood_coarse_rounding_hang(case, tag, event):
+    """a rectangle / circle query that does not return, on inputs where the rounding error of the scalar type is comparable to the feature size
+    (`_coarse`: the spacing at the largest coordinate or shape parameter is at least 1/16 of the smallest non-zero difference of two of them)"""
+    if tag != "hang":
+        return False
+    if not case.ops or case.ops[-1].split()[0] not in ("vrect", "erect", "vcirc", "ecirc"):
+        return False
+    return _coarse(case)
+
+KNOWN_CLASSES["flood_coarse_rounding_hang"] = flood_coarse_rounding_hang
